@@ -537,15 +537,21 @@ def sym_tan(x):
     return r
 
 
+PI_UP = PI + Fraction(1, 10 ** 15)      # a rational above pi (PI itself is the decimal expansion of math.pi, below pi)
+
+
 def sym_atan(x):
     if not is_sym(x):
         return math.atan(x)
     t = term_of(x)
     r = UF["atan"](t)
     c = ctx()
-    # tan(atan(x)) = x ; cos(atan(x)) > 0
+    # tan(atan(x)) = x ; -pi/2 < atan(x) < pi/2 ; sign(atan x) = sign(x) ; cos(atan(x)) > 0
     c.assume(UF["tan"](r) == t)
     c.assume(UF["cos"](r) > 0)
+    c.assume(z3.And(r > -frac_term(PI_UP / 2), r < frac_term(PI_UP / 2)))
+    c.assume(z3.And((r >= 0) == (t >= 0), (r == 0) == (t == 0)))
+    c.assume(z3.And((UF["sin"](r) >= 0) == (t >= 0), (UF["sin"](r) == 0) == (t == 0)))
     _trig_axioms(SymNum(r))
     return SymNum(r, 'float')
 
@@ -559,6 +565,20 @@ def _trig_axioms(x):
     s, co, ta = UF["sin"](t), UF["cos"](t), UF["tan"](t)
     c.assume(s * s + co * co == 1)
     c.assume(z3.Implies(co != 0, ta * co == s))
+    c.assume(z3.And(s >= -1, s <= 1, co >= -1, co <= 1))
+    # first quadrant (PI/2 below pi/2, so the region is inside the true first quadrant)
+    half = frac_term(PI / 2)
+    c.assume(z3.Implies(z3.And(t >= 0, t < half), z3.And(co > 0, s >= 0, ta >= 0)))
+    c.assume(z3.Implies(z3.And(t > 0, t < half), z3.And(s > 0, ta > 0)))
+    c.assume(z3.Implies(t == 0, z3.And(s == 0, co == 1, ta == 0)))
+    ts = z3.simplify(t)
+    if z3.is_rational_value(ts):
+        # a literal angle (e.g. the 20 degree pressure angle): enclose the values numerically
+        v = float(ts.as_fraction())
+        for f, val in ((s, math.sin(v)), (co, math.cos(v)), (ta, math.tan(v))):
+            if abs(val) < 1e6:
+                eps = 1e-12 * max(1.0, abs(val))
+                c.assume(z3.And(f >= frac_term(Fraction(repr(val - eps))), f <= frac_term(Fraction(repr(val + eps)))))
 
 
 def sym_sqrt(x):
@@ -650,6 +670,8 @@ def sym_int(x=0):
 def sym_min(*args, **kw):
     if len(args) == 1:
         args = tuple(args[0])
+    if len(args) == 1 and not kw:
+        return args[0]
     if not any(is_sym(a) for a in args) or kw:
         return builtins.min(*args, **kw)
     best = args[0]
@@ -666,6 +688,8 @@ def sym_min(*args, **kw):
 def sym_max(*args, **kw):
     if len(args) == 1:
         args = tuple(args[0])
+    if len(args) == 1 and not kw:
+        return args[0]
     if not any(is_sym(a) for a in args) or kw:
         return builtins.max(*args, **kw)
     best = args[0]
